@@ -8,6 +8,7 @@ mod c13;
 mod c16;
 mod c17;
 mod c19;
+mod c20;
 mod campaign;
 mod common;
 mod gf2;
@@ -33,11 +34,13 @@ fn main() {
         "C08" => c08::main(&parse_opts(&args[1..])),
         "C16" => c16::main(&parse_opts(&args[1..])),
         "C19" => c19::main(&parse_opts(&args[1..])),
+        "C20" => c20::main(&parse_opts(&args[1..])),
         "child" => match args.get(1).map(|s| s.as_str()) {
             Some("ffi-batch") => {
                 let p = |i: usize| -> u64 { args.get(i).and_then(|s| s.parse().ok()).unwrap_or_else(|| harness_error("child args")) };
                 c19::child_batch(p(2), p(3), p(4), args.get(5).unwrap_or_else(|| harness_error("child args")))
             }
+            Some("cli-ber") => c20::child_cli_ber(args.get(2).unwrap_or_else(|| harness_error("child args"))),
             Some("ffi-replay") => c19::child_replay(
                 args.get(2).unwrap_or_else(|| harness_error("child args")),
                 args.get(3).unwrap_or_else(|| harness_error("child args")),
@@ -62,6 +65,7 @@ fn main() {
                 (Some("histsim-matrix"), _) => c17::replay(&body, path),
                 (Some("alistsim"), _) => c08::replay(&body, path),
                 (Some("ffisim"), _) => c19::replay(&body, path),
+                (Some("clisim"), _) => c20::replay(&body, path),
                 (Some("parsim"), _) | (Some("parsim-peg"), _) => c16::replay(&body, path),
                 (Some("bersim"), Some("C12")) => {
                     campaign::replay_file(&body, path, &|c, o| c12::oracle_c12(c, o))
